@@ -248,10 +248,33 @@ def reserved_cases():
             "AND", "a AND", "OR a", "a AND OR b", "a:AND", "AND:a", "a:TO", "TO:a", "a~AND", "NOT", "NOT NOT a"]
 
 
+LEXEMES = ["a", "AND", "OR", "NOT", "-", "+", "^2", "~", "f:", "(", ")", "\"p\"", "[a TO b]", "<"]
+
+
+def small_scope(rng, max_len, sample=None):
+    """all token sequences up to max_len over representative lexemes (blank separated; `f:` and the suffixes
+    glued), or a random sample of them"""
+    import itertools
+    out = []
+    for n in range(1, max_len + 1):
+        for combo in itertools.product(LEXEMES, repeat=n):
+            q = ""
+            for t in combo:
+                if t in ("^2", "~") or q.endswith(":") or not q:
+                    q += t
+                else:
+                    q += " " + t
+            out.append(q)
+    if sample is not None and len(out) > sample:
+        out = rng.sample(out, sample)
+    return out
+
+
 def run(ctx):
     rng = ctx.rng
     n = ctx.budget(1200, 30000)
     qs = list(reserved_cases())
+    qs += small_scope(rng, 3) + small_scope(rng, 5, sample=ctx.budget(3000, 120000))
     for i in range(n):
         qg = gen.QueryGen(rng, bad_nums=rng.random() < 0.03, max_depth=rng.choice([3, 4, 5]))
         qs.append(gen.malformed(rng, qg) if rng.random() < 0.12 else qg.query())
